@@ -63,6 +63,19 @@ def frontend_oracle(case, impl, model=None):
     m = re.search(r"session=[0-9a-f]+:[0-9a-f]+:\d+:(\d+)", case)
     start = int(m.group(1))
     counters, last = [], None
+    # exhaustion: once the frame with counter 2^32-1 has been handed over, the device must report expiry -- not panic (in a build without
+    # overflow checks the same code wraps to 0 and reuses counters)
+    seen_last = False
+    for part in impl.split(" ; "):
+        if "SessionExpired" in part:
+            break
+        if seen_last and part.startswith("PANIC"):
+            return {"kind": "uplink frame counter space exhausted but session expiry is not reported: the device panics on the counter "
+                            "increment (arithmetic overflow; without overflow checks the counter wraps and is reused)", "start_counter": start}
+        for fr in TX.findall(part):
+            b = bytes.fromhex(fr[4])
+            if len(b) >= 12 and (b[0] >> 5) in (2, 4) and b[6:8] == b"\xff\xff" and start >= 0xFFFF0000:
+                seen_last = True
     # the property speaks about the frames up to the first reported session expiry
     impl = impl.split("SessionExpired")[0] + "SessionExpired ::" + impl.split("SessionExpired", 1)[1].split(" ; ")[0] if "SessionExpired" in impl else impl
     for fr in TX.findall(impl):
